@@ -27,6 +27,39 @@ def occurrence(rng, swords, styles, compound=0.25, plural=0.1):
     return render(st, ws)
 
 
+def c07_identifier(rng, swords):
+    """one identifier of C07's by-construction families with `swords` as the term: separator / hump styles with 0..2 prefix and
+    suffix words, leading underscores, trailing and doubled separators, digit words and digits glued to the term, plurals —
+    bare or as a segment of a dotted path of 2..4 segments whose segments may start / end with '-' or '_' and whose path may
+    start with a dot (every compound-match shape the planner can produce; C07 judges the replacement text, here the plan's
+    offsets / text / line context are judged against the file bytes)"""
+    from . import c07
+    st = rng.choice(c07.FAMILY_STYLES)
+    sep = c07.SEP[st]
+    pool = [w for w in c07.AFFIX if w not in swords]
+    pre = [rng.choice(pool) for _ in range(rng.choice([0, 1, 1, 2]))]
+    suf = [rng.choice(pool) for _ in range(rng.choice([0, 1, 1, 2]))]
+    dotted = st != "dot" and rng.random() < 0.5
+    lead = "" if dotted else rng.choice(["", "", "_", "__", "___"])
+    trail = "" if dotted else rng.choice(["", "", sep if sep else "_", sep * 2 if sep else ""])
+    dbl = rng.choice(["none", "none", "none", "pre", "suf"]) if sep else "none"
+    if dbl == "pre" and not pre or dbl == "suf" and not suf:
+        dbl = "none"
+    variant = rng.choice(["plain"] * 5 + ["digit_suffix_word", "digit_prefix_word", "digit_glued", "digit_glued_before", "plural"])
+    if variant == "digit_suffix_word" and not sep:
+        variant = "plain"
+    ident = c07.Case(st, lead, pre, suf, dbl, trail, list(swords), ["qq"], variant).ident
+    if dotted:
+        nseg = rng.randint(2, 4)
+        pos = rng.randrange(nseg)
+        segs = [rng.choice(c07.DOT_NEIGHBOURS) for _ in range(nseg - 1)]
+        d0, d1 = rng.choice(["", "", "-", "-", "_", "--"]), rng.choice(["", "", "-", "_"])
+        left = rng.choice(["", ""]) + rng.choice(["", "."]) + "".join(x + "." for x in segs[:pos]) + d0
+        right = d1 + "".join("." + x for x in segs[pos:])
+        ident = left + ident + right
+    return ident
+
+
 def trap_line(rng, swords, styles):
     """a line on which "the first textual occurrence" and "the match" differ, with multi-byte text in between:
     an occurrence embedded in a longer word (`x<term>y`, no boundary: not a match) or an earlier match of the SAME variant,
@@ -63,7 +96,10 @@ def gen_line(rng, swords, styles, max_occ=4, multibyte=0.3, long=False):
             parts.append(rng.choice(FILLER))
         if rng.random() < multibyte:
             parts.append(rng.choice(MB))
-        parts.append(rng.choice(WRAPS).format(occurrence(rng, swords, styles)))
+        if rng.random() < 0.3:
+            parts.append(rng.choice(["{}", "{}", "({})", "\"{}\"", "{};", "use {}", "={}", "/{}/"]).format(c07_identifier(rng, swords)))
+        else:
+            parts.append(rng.choice(WRAPS).format(occurrence(rng, swords, styles)))
     if rng.random() < 0.8:
         parts.append(rng.choice(FILLER))
     sep = rng.choice([" ", " ", " ", "\t", ""]) if rng.random() < 0.15 else " "
